@@ -325,6 +325,31 @@ func c17(c *ev.Ctx) {
 		c.Case(gast.ExprText(jobs[i]), true)
 		runExprCase(c, id, "built-in contract "+jobs[i].(gast.Call).Fn, jobs[i], nil, nil, i%2 == 0)
 	})
+	// (e2) a pattern that does not compile is a wrong argument every time it is used: match
+	// and ~= say false, !~ says true, replace gives what it gave the first time - on the first
+	// use and on every later one, for subjects that are empty, blank or end in a line feed too
+	for pi, bad := range []string{"(zz", "[a-", "*x", "a{2,1}", "(?P<n", "x)", "+", "(?z)a"} {
+		for si, subj := range []string{"", " ", "a\n", "\n\nb", "x", "  \n  ", "(zz"} {
+			id := fmt.Sprintf("broken-pattern/%d/%d", pi, si)
+			if !c.Want(id) {
+				continue
+			}
+			script := "return [match(S, P), S ~= " + gast.EncodeRegex(bad, "") + ", S !~ " + gast.EncodeRegex(bad, "") + ", type(replace(S, P, \"-\")), replace(S, P, \"-\") == replace(S, P, \"+\")];"
+			first := ""
+			for rep := 0; rep < 4; rep++ {
+				o := run(script, map[string]model.Value{"S": model.Str(subj), "P": model.Str(bad)}, nil, rep%2 == 0)
+				c.Case(fmt.Sprint(id, rep), true)
+				got := o.Desc()
+				if rep == 0 {
+					first = got
+				}
+				if !strings.HasPrefix(got, "ARRAY:[false, false, true, ") || got != first {
+					c.Violation(id, "a pattern that does not compile", map[string]interface{}{"summary": fmt.Sprintf("use %d of the pattern %q on the subject %q: %s gives %s %s (first use gave %s); expected [false, false, true, ...] every time", rep+1, bad, subj, script, got, errText(o.Err), first), "script": script})
+					break
+				}
+			}
+		}
+	}
 	// (f) wrong arity => null (false for match), never a crash
 	arity := map[string][]int{"between": {3}, "float": {1}, "int": {1}, "getenv": {1}, "len": {1}, "lower": {1}, "upper": {1}, "trim": {1}, "type": {1}, "string": {1}, "keys": {1},
 		"join": {2}, "split": {2}, "min": {2}, "max": {2}, "match": {2}, "replace": {3}, "sort": {1, 2}, "reverse": {1, 2},
